@@ -199,7 +199,8 @@ pub fn judge_case(c: &Case) -> Obs {
     let shown = show_case(&p, &script, &[]);
     obs.show = Some(shown.clone());
     obs.key = hash_of(&(&p.text, &script));
-    let s = run_lace(&p, &script, &[], 8 * (model.dbg.executed + 2 * cmds.len() as u64) + 64);
+    let fuel = 8 * (model.dbg.executed + 2 * cmds.len() as u64) + 64;
+    let s = run_lace(&p, &script, &[], fuel);
     let Some(out) = outcome_of(&mut obs, "C15", &s, &shown) else { return obs };
     let eff = &model.effects[eval_index];
     let pc_before = model.pre[eval_index].0;
@@ -262,6 +263,7 @@ pub fn judge_case(c: &Case) -> Obs {
         }
     }
     compare_output(&mut obs, "C15", &model.dbg.io.out, out, &shown);
+    mode_twin(&mut obs, "C15", &p, &script, &[], fuel, out, &shown);
     obs
 }
 
@@ -309,7 +311,7 @@ impl Prop for C15 {
         "Sessions `step into k; goto <code address>; move ... (set up registers / memory); eval <X>; move r3 x1234; exit` on ProgGen programs, under both feature settings: X is every register / immediate / base+offset instruction form, label operands (LD, LDI, LEA, ST, STI, JSR, CALL) defined before and after the current PC, stack instructions, output traps, \
          the off-limits forms (BR*, RTI, HALT, unknown trap vectors), a third of the label-free instructions written with the separators the assembler treats as blanks (commas, tabs, runs of blanks, free-standing colons - also before the mnemonic and after the last operand) and in mixed case, once lace's own assembler has confirmed that the text still assembles to that one instruction, or a malformed text: one of ~100 fixed ones (missing, surplus and wrong-kind operands, two instructions, directives, garbage, multi-byte characters, unknown labels, out-of-range literals), or a number at the limit of an integer width (2^7..2^128, -1/0/+1, bare / zero-padded / signed / under every literal prefix) in one of 11 operand frames where no such number is legal, or the generated well-formed instruction followed by one surplus token of every kind (directives incl. .end, registers, literals, labels, strings, mnemonics, junk) or preceded by a foreign token. \
          Oracle: allowed => the state equals RefVM executing, at the current PC, the encoding whose PC-relative field makes the effective address the label's address (registers/PC/CC after every command, full memory at the end, output); PC changes only for jumps; off-limits or malformed => nothing changes; in every case the session goes on (the following `move r3 x1234` takes effect and `exit` ends it). The link value of JSR/JSRR and the word pushed by CALL are masked; literal PC offsets are not generated. \
-         Non-trivial: the text is refused / malformed, or PC != origin and the instruction has a label operand or writes memory. Distinct = hash(source, script)."
+         One case in six is run once more in the normal (non-minimal) output mode - tables, colours, errors rendered in full: it must end the same way, after the same number of instructions, with the same final machine. Non-trivial: the text is refused / malformed, or PC != origin and the instruction has a label operand or writes memory. Distinct = hash(source, script)."
     }
     fn assumptions(&self) -> Vec<String> {
         vec!["RefDbg.eval (Appendix C / A); programs get no input".into()]
